@@ -860,7 +860,13 @@ func (fr *frame) computeLoops() {
 	for h := range fr.loops {
 		hs = append(hs, h)
 	}
-	sort.Slice(hs, func(i, j int) bool { return loopPos(hs[i]) < loopPos(hs[j]) })
+	sort.Slice(hs, func(i, j int) bool {
+		pi, pj := loopPos(hs[i]), loopPos(hs[j])
+		if pi != pj {
+			return pi < pj
+		}
+		return hs[i].Index < hs[j].Index // same position (e.g. nested range loops): outer (earlier block) first
+	})
 	for i, h := range hs {
 		fr.loops[h].ordinal = i
 	}
